@@ -58,15 +58,19 @@ fn frame_roundtrip<const N: usize>() {
     let (t2, off, clen, crc2, isize2) = spec_parse(&out[..written]).unwrap();
     assert!(t2 == total && clen == N && crc2 == crc && isize2 as usize == usize_);
     assert!(out[4] == 0 && out[5] == 0 && out[6] == 0 && out[7] == 0); // MTIME 0
-    let i: usize = kani::any(); // universally quantified index instead of a loop
-    kani::assume(i < N);
-    assert_eq!(out[off + i], cdata[i]);
+    let i: usize = if N == 0 { 0 } else { kani::any() }; // universally quantified index instead of a loop
+    if N > 0 {
+        kani::assume(i < N);
+        assert_eq!(out[off + i], cdata[i]);
+    }
     // O1.2 real reader-side parser is the inverse
     let p = parse_frame(&out[..written]);
     if usize_ <= 65536 {
         let (bs, cd, c, isz) = p.unwrap();
         assert!(bs == total as u64 && c == crc && isz == usize_ && cd.len() == N);
-        assert_eq!(cd[i], cdata[i]);
+        if N > 0 {
+            assert_eq!(cd[i], cdata[i]);
+        }
         kani::cover!(usize_ == 65536);
     } else {
         assert!(p.is_err());
